@@ -60,8 +60,13 @@ RULE = ('cases 0-15 = the 16 factory flag tuples (get_predefined must return a c
         '1-3 events, 1-4 candidates per (event, source), callbacks in every slot, conditions by position/callback, '
         'histories of 1-8 calls via trigger(name)/event method, known events only, p_unknown=0); "may" = the same with '
         'may_trigger calls mixed in; "crash" = a flat case in which one position of the non-failing trace (computed by '
-        'the Coq engine) raises an Exception/BaseException subclass (C04); "queue" = C05 programs (queued=True, 1-3 '
-        'models, callbacks trigger events on any model / remove models / raise). Each case runs on 12 classes x '
+        'the Coq engine) raises (C04), followed by 2-4 further events; "queue" = C05 programs (1-3 models, callbacks '
+        'trigger events on any model / remove models / raise), followed by 2-4 rounds of events on all models. Raising '
+        'callbacks draw from custom Exception/BaseException subclasses, MachineError, AttributeError, ValueError, '
+        'KeyError, TypeError, RuntimeError, IndexError, asyncio.CancelledError (exact type names observed). Queue '
+        'mode per case: False / True / "model" (async classes; sync classes use True) for flat and crash cases '
+        '(queued ones are modelled by Queue.drain over the engine), True or "model" (one model, no removals) for '
+        'queue programs. Each case runs on 12 classes x '
         '{by name, through the factory} x diagram backends %s (unavailable here: %s). Non-trivial: the base run '
         'executed a transition after a failed check, or processed >= 2 events / raised, and at least one async class '
         'was compared inside the async envelope; distinct by case hash.' % (BACKENDS, MISSING_BACKENDS))
@@ -73,6 +78,9 @@ ASSUMPTIONS = [
     'stage); suspension and concurrency are C07/C08',
     'locked classes are driven from one thread (schedules are C06); every lock is observed free after each call',
     'unqueued re-entrant triggers from callbacks are compared class-vs-Machine only (extra check), no Coq engine',
+    'a user callback raising asyncio.CancelledError is outside the async envelope (async classes report a cancelled '
+    'event, result False, by design — C08); queued="model" cases have one model and no remove_model actions (the '
+    'per-model queue of a removed model is deleted by design of that mode)',
     'event names the machine knows (unknown names: hierarchical classes route AttributeError through on_exception/'
     'finalize, Machine raises it directly — excluded by the property text)',
 ]
@@ -82,6 +90,93 @@ THEOREMS = ['C09_factory', 'C09_factory_keys', 'C09_factory_examples', 'C09_hsm_
 THEOREM_OF_DIFF = 'class observation = Machine observation = flat engine (Props/C09.v, corr_C09)'
 
 logging.getLogger('asyncio').setLevel(logging.CRITICAL)
+
+# ------------------------------------------------------------------ exceptions raised by user callbacks
+# Built-in types the library itself catches or raises somewhere (core._process / _process_async queue handling,
+# attribute and state lookups, cancellation).  A user callback raising one of them must be treated like any other
+# user exception.  In the Coq model they travel as UserExn / BaseExn with id 100+index (MachineError, AttributeError,
+# ValueError have their own constructors); observations name the exact TYPE.
+BUILTIN_POOL = [('KeyError', 3), ('TypeError', 3), ('RuntimeError', 3), ('IndexError', 3), ('CancelledError', 4)]
+CANCELLED = [4, 100 + 4]
+
+
+def _builtin_types():
+    return [KeyError, TypeError, RuntimeError, IndexError, asyncio.CancelledError]
+
+
+def exn_pool():
+    """codes (kind, n) a raising callback draws from"""
+    return ([(3, 7), (4, 7), (0, 0), (1, 0), (2, 0)] +
+            [(kind, 100 + i) for i, (_, kind) in enumerate(BUILTIN_POOL)])
+
+
+def draw_exn(rng):
+    x = rng.random()
+    if x < 0.25:
+        return (3, 7)
+    if x < 0.35:
+        return (4, 7)
+    return rng.choice(exn_pool()[2:])
+
+
+def make_exc(exn):
+    kind, n = exn
+    if kind in (3, 4) and n >= 100:
+        return _builtin_types()[n - 100]('x')
+    return flat.make_exc(exn)
+
+
+def classify_exc(e):
+    """exact type -> code; anything else is reported by its type name"""
+    tr = flat._import_transitions()
+    if type(e) is flat.UserExc:
+        return [3, e.n]
+    if type(e) is flat.BaseExc:
+        return [4, e.n]
+    if type(e) is tr.MachineError:
+        return [0, 0]
+    if type(e) is AttributeError:
+        return [1, 0]
+    if type(e) is ValueError:
+        return [2, 0]
+    for i, t in enumerate(_builtin_types()):
+        if type(e) is t:
+            return [BUILTIN_POOL[i][1], 100 + i]
+    return [9, type(e).__name__]
+
+
+def exn_name(code):
+    if not isinstance(code, list) or len(code) != 2:
+        return code
+    k, n = code
+    if k == 0:
+        return 'MachineError'
+    if k == 1:
+        return 'AttributeError'
+    if k == 2:
+        return 'ValueError'
+    if k in (3, 4) and isinstance(n, int) and n >= 100 and n - 100 < len(BUILTIN_POOL):
+        return BUILTIN_POOL[n - 100][0]
+    if k == 3:
+        return 'UserExc#%s' % n
+    if k == 4:
+        return 'BaseExc#%s' % n
+    return 'other:%s' % n
+
+
+def name_exns(steps):
+    """replace exception codes by type names in results and in the error seen by on_exception/finalize items"""
+    out = []
+    for step in steps:
+        if not isinstance(step, list) or len(step) < 2:
+            out.append(step)
+            continue
+        items = [it[:5] + [[exn_name(x) for x in it[5]]] + it[6:] for it in step[0]]
+        res = step[1]
+        if isinstance(res, list) and len(res) == 2 and res[0] == 1:
+            res = [1, exn_name(res[1])]
+        out.append([items, res] + list(step[2:]))
+    return out
 
 
 # ------------------------------------------------------------------ reflection -> coq/Generated/ClassMap.v
@@ -175,7 +270,10 @@ def async_envelope(case, items):
     for pos, it in enumerate(items):
         slot, cb, ret = it[0], it[1], bool(it[6])
         failing = (slot == 2 and not ret) or (slot == 3 and ret)
-        raising = _reply(case['env'], cb, pos)[1] is not None
+        exn = _reply(case['env'], cb, pos)[1]
+        raising = exn is not None
+        if raising and list(exn) == CANCELLED:
+            return False       # async classes turn CancelledError into "event cancelled, result False" by design (C08)
         if failing or raising:
             n, i = where.get(cb, (1, 0))
             if i != n - 1:
@@ -212,10 +310,25 @@ def gen_queue(rng):
                     acts.append((1, rng.randrange(nm)))
             bypos[p] = (rng.random() < 0.7, None, acts)
         elif x < 0.13:
-            bypos[p] = (True, (3 + p % 2, 1), [])
+            bypos[p] = (True, draw_exn(rng), [])
         elif x < 0.35:
             bypos[p] = (rng.random() < 0.7, None, [])
     c['env']['bypos'] = bypos
+    # every (possibly crashing) history is followed by 2-4 more rounds of events on ALL models
+    j = len(c['history'])
+    for _ in range(rng.randint(2, 4)):
+        order = list(range(nm))
+        rng.shuffle(order)
+        for mdl in order:
+            c['history'].append((mdl, rng.randrange(ne), 100 + j))
+            j += 1
+    # queue mode: True (one shared queue); 'model' for the async classes when there is one model (same FIFO)
+    c['queued'] = 2 if (nm == 1 and rng.random() < 0.5) else 1
+    if c['queued'] == 2:
+        # per-model queues are deleted by remove_model (a later trigger on the removed model then fails inside the
+        # library by design of that mode): no remove_model actions in 'model' mode
+        for p_, (ret_, exn_, acts_) in list(bypos.items()):
+            bypos[p_] = (ret_, exn_, [a for a in acts_ if a[0] != 1])
     c.pop('cls', None)
     del c['init']
     c['sub'] = 'queue'
@@ -273,11 +386,15 @@ def gen_batch(seed, n, tier):
         if stream == 'queue':
             cases.append(gen_queue(rng))
         else:
+            follow = rng.randint(2, 4) if stream == 'crash' else 0     # events after the crashing call
             c = flat.gen_case(rng, malformed=False, may=(stream == 'may'), p_unknown=0.0,
-                              hist_len=rng.randint(1, 6) if stream == 'crash' else None)
+                              hist_len=rng.randint(1, 5) + follow if stream == 'crash' else None)
             c.pop('cls', None)
             c['sub'] = 'flat'
             c['stream'] = stream
+            c['follow'] = follow
+            # False / True / 'model' (sync classes: bool); may_trigger histories stay unqueued
+            c['queued'] = 0 if stream == 'may' else rng.choice([0, 1, 1, 2])
             cases.append(c)
             if stream == 'crash':
                 crash_bases.append((i, c))
@@ -286,7 +403,9 @@ def gen_batch(seed, n, tier):
         obs = F.run_model(0, [flat.enc_case(c) for _, c in crash_bases])
         for (i, c), o in zip(crash_bases, obs):
             rng = random.Random('C09x-%d-%d' % (seed, i))
-            items = [it for step in o[1] for it in step[0]]
+            # crash inside the calls that are followed by >= `follow` further events
+            early = o[1][:max(1, len(o[1]) - c['follow'])]
+            items = [it for step in early for it in step[0]]
             if not items:
                 continue
             where = _cb_lists(c['machine'])
@@ -294,7 +413,7 @@ def gen_batch(seed, n, tier):
             pool = last if (last and rng.random() < 0.75) else list(range(len(items)))
             k = rng.choice(pool)
             it = items[k]
-            c['env']['bypos'][k] = (bool(it[6]), (3 if (k + i) % 2 == 0 else 4, 7), [])
+            c['env']['bypos'][k] = (bool(it[6]), draw_exn(rng), [])
             c['crash'] = k
     return cases
 
@@ -311,7 +430,17 @@ def enc(case):
         return [2, [bool(x) for x in case['flags']]]
     if case['sub'] == 'queue':
         return [1, enc_queue(case)]
+    if flat_via_queue(case):
+        # a queued machine: the faithful model is Queue.drain over the engine (a queued call returns True unless
+        # it raises) — one model, no callback actions
+        m = case.get('model', 0)
+        return [1, [flat.enc_machine(case['machine']), flat.enc_env(case['env']), [[m, case['init']]],
+                    [[m, e, a] for k, e, a in case['history']]]]
     return [0, flat.enc_case(case)]
+
+
+def flat_via_queue(case):
+    return case['sub'] == 'flat' and bool(case.get('queued', 0)) and all(k != 1 for k, e, a in case['history'])
 
 
 # ------------------------------------------------------------------ implementation side
@@ -337,7 +466,7 @@ class CWorld(flat.World):
                 ok = tok is not None and set(ed.kwargs.keys()) == {'k'} and ed.kwargs['k'] is tok
                 arg = [1, tok.n if ok else 999]
                 if slot in ('on_exception', 'finalize'):
-                    err = None if ed.error is None else flat.classify_exc(ed.error)
+                    err = None if ed.error is None else classify_exc(ed.error)
             else:
                 tok = args[0] if len(args) == 1 and isinstance(args[0], Token) else None
                 ok = tok is not None and set(kwargs.keys()) == {'k'} and kwargs['k'] is tok
@@ -357,11 +486,11 @@ class CWorld(flat.World):
                     for a in acts:
                         await world.aperform(a, item)
                     if exn is not None:
-                        raise flat.make_exc(exn)
+                        raise make_exc(exn)
                     return bool(ret)
                 return later()
             if exn is not None:
-                raise flat.make_exc(exn)
+                raise make_exc(exn)
             return bool(ret)
         rec.__name__ = '%s_%d' % (slot, cb)
         return rec
@@ -411,6 +540,14 @@ def class_kwargs(flags, backend):
     return dict(graph_engine=backend) if flags[0] else {}
 
 
+def queued_arg(case, flags, default=0):
+    """case['queued']: 0 False, 1 True, 2 'model' (async classes only; sync classes: True)"""
+    q = case.get('queued', default)
+    if q == 2:
+        return 'model' if flags[3] else True
+    return bool(q)
+
+
 def run_flat_on(case, cls, flags, backend):
     is_async = bool(flags[3])
     runner = Runner(is_async)
@@ -422,7 +559,8 @@ def run_flat_on(case, cls, flags, backend):
         async def noop(a, item):
             return None
         world.aperform = noop
-        machine, model = flat.build_machine(case, world, cls=cls, extra_kwargs=class_kwargs(flags, backend))
+        machine, model = flat.build_machine(case, world, cls=cls,
+                                            extra_kwargs=dict(queued=queued_arg(case, flags), **class_kwargs(flags, backend)))
         world.model_ids[id(model)] = case.get('model', 0)
         world.current_model = model
         out, free = [], 1
@@ -439,7 +577,7 @@ def run_flat_on(case, cls, flags, backend):
                     r = runner.call(lambda: getattr(model, name)(tok, k=tok))
                 res = [0, bool(r)]
             except BaseException as ex:  # noqa
-                res = [1, flat.classify_exc(ex)]
+                res = [1, classify_exc(ex)]
             out.append([world.items, res, flat.state_int(model)])
             free = free and _lock_free(machine, flags)
         return out, free
@@ -459,7 +597,8 @@ def run_queue_on(case, cls, flags, backend, queued=True):
         c2 = dict(case)
         c2['init'] = case['models'][0][1]
         machine, _ = flat.build_machine(c2, world, cls=cls, models=models,
-                                        extra_kwargs=dict(queued=queued, **class_kwargs(flags, backend)))
+                                        extra_kwargs=dict(queued=(queued_arg(case, flags, 1) if queued else False),
+                                                          **class_kwargs(flags, backend)))
         for (k, s0), mod in zip(case['models'], models):
             machine.set_state('s%d' % s0, mod)
         st = dict(next_id=0, payload_id={}, act_k={}, nested=[], stale=False)
@@ -521,7 +660,7 @@ def run_queue_on(case, cls, flags, backend, queued=True):
                 r = runner.call(lambda: call_trigger(models[m], e, a))
                 res = [0, 1 if r else 0]            # the property speaks of the truth value of the result
             except BaseException as ex:  # noqa
-                res = [1, flat.classify_exc(ex)]
+                res = [1, classify_exc(ex)]
             processed = []
             for it in world.items:
                 pid = st['payload_id'].get(it[4][1], 999)
@@ -560,7 +699,7 @@ def impl_factory(case):
     try:
         cls = MachineFactory.get_predefined(graph=g, nested=n, locked=l, asyncio=a)
     except BaseException as ex:  # noqa
-        return [1, [1, flat.classify_exc(ex)]]
+        return [1, [1, classify_exc(ex)]]
     return [1, [0, list(_features(cls))]]
 
 
@@ -578,6 +717,7 @@ def run_all_classes(case, run_on):
     """base observation (Machine by name) and one verdict per (class, way, backend)"""
     classes = _classes()
     base, _ = run_on(case, classes[0][1], classes[0][2], None)
+    base = name_exns(base)
     inside = async_envelope(case, _base_items(case, base))
     async_ref = None
     verdicts = []
@@ -586,6 +726,7 @@ def run_all_classes(case, run_on):
             lab = label if backend in (None, 'mermaid') and len(BACKENDS) == 1 else '%s@%s' % (label, backend)
             try:
                 obs, free = run_on(case, cls, fl, backend)
+                obs = name_exns(obs)
             except BaseException as ex:  # noqa — constructing/driving the class failed
                 verdicts.append([lab, [0, 'driver: %s: %s' % (type(ex).__name__, ex), []], 0])
                 continue
@@ -630,8 +771,12 @@ def canon(case, obs):
     variants = obs[1]
     if case['sub'] == 'queue':
         vs = [canon_queue_steps(v) for v in variants]
+    elif flat_via_queue(case):
+        vs = [[(st if not isinstance(st, list) else [st[0], st[1], st[2][0][1]]) for st in canon_queue_steps(v)]
+              for v in variants]
     else:
         vs = variants
+    vs = [name_exns(v) for v in vs]
     base = vs[0]
     if vs[1] != base:                    # C09_hsm_flat says this cannot happen on well-formed cases
         return [1, ['model-variants-differ', vs[0], vs[1]], []]
@@ -677,6 +822,7 @@ def stats(case, obs, dist):
         inc('undecodable')
         return
     base, verdicts = obs[1], obs[2]
+    inc('queued_mode_%s' % {0: 'False', 1: 'True', 2: 'model(async)/True(sync)'}[case.get('queued', 1 if case['sub'] == 'queue' else 0)])
     inc('class_runs', len(verdicts))
     inc('class_runs_equal_to_Machine', sum(1 for _, v, _f in verdicts if v == 1))
     inc('async_runs_outside_async_envelope_equal_to_AsyncMachine', sum(1 for _, v, _f in verdicts if v == 2))
@@ -690,6 +836,7 @@ def stats(case, obs, dist):
         res = step[1]
         if res[0] == 1:
             inc('base_calls_raising')
+            inc('base_raised_%s' % res[1])
         elif res[1]:
             inc('base_calls_true')
         else:
